@@ -131,3 +131,71 @@ import re as _re
 def base(name):
     """Name with the '#k' uniquifying suffixes removed (for rules that key on the variable name)."""
     return _re.sub(r'#\d+', '', name)
+
+
+def disjuncts(e):
+    """Top-level disjuncts of a boolean expression."""
+    if isinstance(e, E) and e.op == '|':
+        out = []
+        for a in e.args:
+            out += disjuncts(a)
+        return out
+    return [e]
+
+
+def conj(e):
+    """Conjunct set {(atom, polarity)} of a boolean expression (conjunct normal form of literals())."""
+    from .fsm import atom_of
+    return {atom_of(l) for l in literals(e, True)}
+
+
+def dnf(e):
+    """List of conjunct sets, one per top-level disjunct."""
+    return [conj(d) for d in disjuncts(e)]
+
+
+def expand(ir, e, depth=4):
+    """Replace local signals that have a single unconditional combinational definition by that definition."""
+    if not isinstance(e, E) or depth == 0:
+        return e
+    if e.op == 'sig':
+        name = e.args[0].name
+        if not name.startswith('self.') and '.' not in name:
+            d = comb_def(ir, name)
+            if d is not None:
+                return expand(ir, d, depth - 1)
+        return e
+    new = tuple(expand(ir, a, depth) if isinstance(a, E) else a for a in e.args)
+    return E(e.op, new, w=e.w, val=e.val, label=e.label)
+
+
+def bool_leaves(*exprs):
+    from .fsm import leaf_atoms
+    out = set()
+    for e in exprs:
+        if isinstance(e, E):
+            leaf_atoms(e, out)
+    return sorted(out)
+
+
+def all_assignments(leaves, limit=18):
+    import itertools
+    if len(leaves) > limit:
+        raise AnalysisError('too many boolean leaves to enumerate: %d' % len(leaves))
+    for bits in itertools.product((False, True), repeat=len(leaves)):
+        yield dict(zip(leaves, bits))
+
+
+def guard_expr(item):
+    """The guard of an Assign/Edge as one list of (expr, polarity) usable with eval_guard."""
+    return [(l.e, l.pos) for l in item.guard]
+
+
+def eval_guard(item, asg):
+    from .fsm import holds
+    return holds(item.guard, asg)
+
+
+def eval_expr(e, asg):
+    from .fsm import eval_bool
+    return eval_bool(e, asg)
